@@ -217,11 +217,57 @@ Proof.
   intros HK Hk x Hx. apply (aset_keys_in k3_eqb k3_eqb_spec) in Hx. destruct Hx as [->|Hx]; [assumption|apply HK; assumption].
 Qed.
 
+Lemma OpInv_remove_share ks s st a o sh s' : do_remove_share s st a o sh = Some s' ->
+  OpInv s -> keys_in ks s -> In (st, a, o) ks -> OpInv s' /\ keys_in ks s'.
+Proof.
+  intros E HO HK Hk. unfold do_remove_share in E.
+  destruct (negb (sh >? 0)); [discriminate|].
+  destruct (sh >? p_tot (pool_of s o a)); [discriminate|].
+  destruct (removed_tokens (pool_of s o a) sh) as [tok| |]; try discriminate.
+  destruct (p_amt (pool_of s o a) <? tok); [discriminate|].
+  destruct (is_assoc s st o && (p_op (pool_of s o a) <? sh)); [discriminate|].
+  destruct (share_of s st a o - sh <? 0); [discriminate|].
+  assert (G : forall lists', OpInv (mkSt (aset k2_eqb (st_pools s) (o, a)
+               (mkPool (p_amt (pool_of s o a) - tok) (p_tot (pool_of s o a) - sh)
+                  (if is_assoc s st o then p_op (pool_of s o a) - sh else p_op (pool_of s o a))))
+               (aset k3_eqb (st_rows s) (st, a, o) (share_of s st a o - sh)) lists' (st_assoc s) (st_free s))).
+  { intros lists' o' a'. unfold pool_of at 1. simpl. rewrite aget_aset2, rows_sum_assoc_aset, matches_k2. simpl fst.
+    unfold shget. fold (share_of s st a o). rewrite is_as_assoc.
+    destruct (k2_eqb (o', a') (o, a)) eqn:Ek.
+    - apply k2_eqb_spec in Ek. inversion Ek; subst o' a'. simpl. rewrite (HO o a).
+      destruct (is_assoc s st o); simpl; lia.
+    - simpl. fold (pool_of s o' a'). rewrite (HO o' a'). lia. }
+  destruct (share_of s st a o - sh =? 0).
+  - destruct (aget k2_eqb (st_lists s) (o, a)); [|discriminate]. injection E as <-.
+    split; [apply G|]. unfold keys_in. simpl. apply (keys_in_aset ks s (st_rows s)); assumption.
+  - injection E as <-. split; [apply G|]. unfold keys_in. simpl. apply (keys_in_aset ks s (st_rows s)); assumption.
+Qed.
+
+Lemma staker_rows_in s st a o sh : In (o, sh) (staker_rows s st a) -> In (st, a, o) (map fst (st_rows s)).
+Proof.
+  unfold staker_rows. intros H. apply in_flat_map in H. destruct H as [[[[st' a'] o'] v] [Hin H]]. simpl in H.
+  destruct (String.eqb st' st) eqn:E1; simpl in H; [|contradiction].
+  destruct (String.eqb a' a) eqn:E2; simpl in H; [|contradiction].
+  destruct H as [H|[]]. inversion H; subst. apply String.eqb_eq in E1. apply String.eqb_eq in E2. subst.
+  apply in_map_iff. exists (st, a, o, sh). auto.
+Qed.
+
+Lemma OpInv_nst_fold ks prop st a rs : forall dep s s', nst_fold prop st a rs dep s = Some s' ->
+  Inv s -> OpInv s -> keys_in ks s -> (forall o sh, In (o, sh) rs -> In (st, a, o) ks) -> OpInv s' /\ keys_in ks s'.
+Proof.
+  induction rs as [|[o sh] r IH]; simpl; intros dep s s' H I HO HK Hrs; [injection H as <-; auto|].
+  destruct (removed_tokens (pool_of s o a) (dec_mul sh prop)) as [tok| |]; try discriminate.
+  destruct (do_remove_share s st a o (dec_mul sh prop)) as [s1|] eqn:E; [|discriminate].
+  destruct (dep <? tok); [discriminate|].
+  destruct (OpInv_remove_share ks s st a o _ s1 E HO HK (Hrs o sh (or_introl eq_refl))) as [A B].
+  eapply IH; eauto. eapply Inv_remove_share; eauto.
+Qed.
+
 Lemma OpInv_step ks ops s x : Inv s -> OpInv s -> keys_in ks s -> op_exact ks x ->
   OpInv (fst (step ops s x)) /\ keys_in ks (fst (step ops s x)).
 Proof.
   intros I HO HK HX. unfold step. destruct (step_opt ops s x) as [s'|] eqn:E; simpl; [|auto].
-  destruct x as [st a amt|st a o amt|st a o amt|c st o|st|o prop]; simpl in E, HX.
+  destruct x as [st a amt|st a o amt|st a o amt|c st o|st|o prop|st a amt pend dep]; simpl in E, HX.
   - (* Deposit *)
     unfold do_deposit in E. destruct (amt <? 0); [discriminate|]. injection E as <-. split; [exact HO|exact HK].
   - (* Delegate *)
@@ -241,27 +287,8 @@ Proof.
     unfold do_undelegate in E.
     destruct (negb (amt >? 0)); [discriminate|]. destruct (negb (mem o ops)); [discriminate|].
     destruct (validate_undelegation s st a o amt) as [sh|] eqn:V; [|discriminate].
-    destruct (negb (sh >? 0)); [discriminate|].
-    destruct (sh >? p_tot (pool_of s o a)); [discriminate|].
-    destruct (removed_tokens (pool_of s o a) sh) as [tok| |]; try discriminate.
-    destruct (p_amt (pool_of s o a) <? tok); [discriminate|].
-    destruct (is_assoc s st o && (p_op (pool_of s o a) <? sh)); [discriminate|].
-    destruct (share_of s st a o - sh <? 0); [discriminate|].
     pose proof (HK _ (validate_key _ _ _ _ _ _ V)) as Hk.
-    assert (G : forall lists', OpInv (mkSt (aset k2_eqb (st_pools s) (o, a)
-                 (mkPool (p_amt (pool_of s o a) - tok) (p_tot (pool_of s o a) - sh)
-                    (if is_assoc s st o then p_op (pool_of s o a) - sh else p_op (pool_of s o a))))
-                 (aset k3_eqb (st_rows s) (st, a, o) (share_of s st a o - sh)) lists' (st_assoc s) (st_free s))).
-    { intros lists' o' a'. unfold pool_of at 1. simpl. rewrite aget_aset2, rows_sum_assoc_aset, matches_k2. simpl fst.
-      unfold shget. fold (share_of s st a o). rewrite is_as_assoc.
-      destruct (k2_eqb (o', a') (o, a)) eqn:Ek.
-      - apply k2_eqb_spec in Ek. inversion Ek; subst o' a'. simpl. rewrite (HO o a).
-        destruct (is_assoc s st o); simpl; lia.
-      - simpl. fold (pool_of s o' a'). rewrite (HO o' a'). lia. }
-    destruct (share_of s st a o - sh =? 0).
-    + destruct (aget k2_eqb (st_lists s) (o, a)); [|discriminate]. injection E as <-.
-      split; [apply G|]. unfold keys_in. simpl. apply (keys_in_aset ks s (st_rows s)); assumption.
-    + injection E as <-. split; [apply G|]. unfold keys_in. simpl. apply (keys_in_aset ks s (st_rows s)); assumption.
+    eapply OpInv_remove_share; eauto.
   - (* Associate *)
     unfold do_associate in E. destruct (negb c); [discriminate|]. destruct (negb (mem o ops)); [discriminate|].
     destruct (assoc_of s st) eqn:EA; [discriminate|].
@@ -285,6 +312,21 @@ Proof.
     unfold do_slash in E. destruct ((prop <? 0) || (prop >? P)) eqn:Ep; [discriminate|].
     apply orb_false_iff in Ep. destruct Ep as [E1 E2]. apply Z.ltb_ge in E1. rewrite Z.gtb_ltb in E2. apply Z.ltb_ge in E2.
     injection E as <-. apply OpInv_slash_fold; auto.
+  - (* NstBalance *)
+    unfold do_nst_balance in E.
+    assert (SF : forall v, OpInv (set_free s st a v) /\ keys_in ks (set_free s st a v)) by (intros v; split; [exact HO|exact HK]).
+    destruct (amt >? 0); [injection E as <-; apply SF|].
+    destruct (amt =? 0); [injection E as <-; auto|].
+    destruct (aget k2_eqb (st_free s) (st, a)) as [free|]; [|discriminate].
+    cbv zeta in E.
+    destruct (dep <? Z.min (- amt) free); [discriminate|].
+    destruct (- amt - free <=? 0); [injection E as <-; apply SF|].
+    destruct (dep - Z.min (- amt) free <? Z.min (- amt - free) pend); [discriminate|].
+    destruct (- amt - free - pend <=? 0); [injection E as <-; apply SF|].
+    destruct (total_delegated _ a _) as [tot|]; [|discriminate].
+    destruct (tot =? 0); [injection E as <-; apply SF|].
+    eapply OpInv_nst_fold; [exact E | apply Inv_set_free; exact I | apply SF | apply SF |].
+    intros o sh Hin. apply HK. apply (staker_rows_in _ _ _ _ _ Hin).
 Qed.
 
 Theorem OpInv_run ks ops l : Forall (op_exact ks) l -> forall s, Inv s -> OpInv s -> keys_in ks s -> OpInv (run ops s l).
